@@ -760,8 +760,16 @@ func runCoopMethods(ctx *bex.Ctx) {
 				continue
 			}
 			names := []string{"b", "c", "d", "e", "f", "g"}[:arity]
-			for _, rc := range recvs {
-				expr := rc.src + ".map(x->slow(x))." + fd.Name + "(" + strings.Join(names, ",") + ")"
+			for ri, rc := range recvs {
+				par := ".map(x->slow(x))."
+				if ri < 3 && arity <= 2 {
+					// the first three receivers also behind a parallel FILTER
+					par = ".accept(x->slow(1)=1)."
+					if (len(fd.Name)+ri)%2 == 0 {
+						par = ".map(x->slow(x))."
+					}
+				}
+				expr := rc.src + par + fd.Name + "(" + strings.Join(names, ",") + ")"
 				var f, ft funcGen.Func[value.Value]
 				var err error
 				vsched.RunDefault(func() string {
@@ -855,7 +863,7 @@ func runCoopMethods(ctx *bex.Ctx) {
 		}
 	}
 	ctx.Add("list_methods_enumerated_from_documentation", int64(nMethods))
-	ctx.SpaceDone(fmt.Sprintf("every method of the list type listed by GetDocumentation() x every argument tuple from a pool of %d values (%d for arity >= 3) x 6 receivers of 16 items (ints; ints followed by a string and a map resp. lists and closures from item 13; floats with NaN and Inf at items 13/14; lists; records) produced by a map stage that runs parallel from item 13; non-preemptive schedules (<= 8); no panic on a library goroutine, no deadlock, a fault is catchable", len(small), len(tiny)))
+	ctx.SpaceDone(fmt.Sprintf("every method of the list type listed by GetDocumentation() x every argument tuple from a pool of %d values (%d for arity >= 3) x 6 receivers of 16 items (ints; ints followed by a string and a map resp. lists and closures from item 13; floats with NaN and Inf at items 13/14; lists; records) produced by a map (or accept) stage that runs parallel from item 13; non-preemptive schedules (<= 8); no panic on a library goroutine, no deadlock, a fault is catchable", len(small), len(tiny)))
 }
 
 // replayCoopMethod re-runs a case of space list-methods-behind-a-parallel-stage.
